@@ -303,10 +303,33 @@ class BuiltinsMixin:
     def b_print(self, pos, kw, node, env):
         return NONE()
 
-    def b_any(self, pos, kw, node, env):
+    def _anyall(self, pos, is_any):
+        if not pos:
+            return BOOL()
+        v = pos[0]
+        items = None
+        if v.k in ('list', 'tuple', 'iter'):
+            items, elem, cnt = self.I.iter_model(v, None)
+        if items is None:
+            return BOOL()
+        ts = [self.I.truth(x) for x in items]
+        if is_any:
+            if any(t is True for t in ts):
+                return BOOL(True)
+            if all(t is False for t in ts):
+                return BOOL(False)
+        else:
+            if any(t is False for t in ts):
+                return BOOL(False)
+            if all(t is True for t in ts):
+                return BOOL(True)
         return BOOL()
 
-    b_all = b_any
+    def b_any(self, pos, kw, node, env):
+        return self._anyall(pos, True)
+
+    def b_all(self, pos, kw, node, env):
+        return self._anyall(pos, False)
 
     def b_round(self, pos, kw, node, env):
         return FLOAT()
